@@ -1,6 +1,8 @@
 import TantivyModel.Proofs.GrammarFold
 import TantivyModel.Proofs.GrammarSimplify
 import TantivyModel.Proofs.GrammarChars
+import TantivyModel.Proofs.GrammarCharsPrint
+import TantivyModel.Model.Grammar.Agree
 /-!
 # C16 — The query parser is total and implements its documented grammar
 
@@ -258,9 +260,21 @@ theorem C16_strict_panic_witness :
     pAst false 4 ['+', ' ', '*'] = .panic ∧ pAst true 4 ['+', ' ', '*'] = .fail := ⟨rfl, rfl⟩
 
 /- Full statement (not proved): `C16_print_parse : ∀ q canonical, parseStrict (print q) = .tree (rewrite (build q))`
-   for a printer of abstract queries. Proved part: the documented concrete forms below, each a
-   kernel-checked evaluation of the model parser (the general statement over all words needs
-   unfolding lemmas for the character-literal matchers, which time out in `whnf`). -/
+   for a printer of abstract queries. Proved parts: (1) the ∀ form at leaf level — every word of
+   ASCII letters and digits that is not a keyword (`C16_print_parse_leaf`, through step lemmas for
+   each matcher: `wordRest`, `word`, `fieldName`, `range`, `set`, `exists_`, `regex`, `simpleTerm`,
+   `plainLiteral`, `pLeaf`, `pOccurLeaf`, `pAst`, for every fuel ≥ 3); (2) the documented concrete
+   forms below as kernel-checked evaluations. Groups by induction need the same step lemmas with a
+   non-empty remainder (`w ++ ' ' :: rest`) and are not done. -/
+/-- **print/parse at leaf level, for all words**: the strict parser (with or without the guard)
+    reads a word of ASCII letters and digits that is not `OR`/`AND`/`NOT`/`IN` as the unfielded,
+    unquoted literal with exactly that text -/
+theorem C16_print_parse_leaf (guard : Bool) (w : Str) (h : PlainWord w) :
+    parseStrictWith guard w = .tree (.leaf (.literal none w .none 0 false)) :=
+  parseStrictWith_plain guard w h
+
+example : PlainWord ['a', 'b', 'c'] := plainWord_abc
+
 /-- `C16_print_parse_partial`: the documented forms parse to the documented trees -/
 theorem C16_print_parse_partial :
     pAst false 4 ['a', 'b', 'c'] = .ok (.leaf (.literal none ['a', 'b', 'c'] .none 0 false)) []
@@ -334,6 +348,69 @@ example : pAst false 5 ['N', 'O', 'T', ' ', 'a'] = .ok (.clause [(some .mustNot,
 
 /-- `f:(a b)` : field scope over a group -/
 example : pAst false 8 ['f', ':', '(', 'a', ' ', 'b', ')'] = .ok (.clause [(none, .leaf (.literal (some ['f']) ['a'] .none 0 false)), (none, .leaf (.literal (some ['f']) ['b'] .none 0 false))]) [] := by rfl
+
+/-! ## strict vs lenient at character level (`Model/Grammar/CharsLenient.lean`, `Agree.lean`)
+
+The harness compares `parseLenient` with the real `parse_query_lenient` (tree and number of
+errors) on every generated string, and evaluates the statement below on every string. -/
+
+/- Full statement (not proved; evaluated by the harness on every generated text — real parsers
+   and Lean models — as the executable predicate `agreesOn`):
+   `theorem C16_lenient_agrees_chars (s : Str) (t : Ast CLeaf) (hs : parseStrict s = .tree t)
+       (hf : featureFree s = true) : parseLenient s = .tree t 0`
+   where `featureFree` (Agree.lean) is the decidable textual predicate "none of the catalogued
+   divergence features occurs". Proved part: kernel-checked agreement on the documented forms. -/
+theorem C16_lenient_agrees_chars_partial :
+    (agreesAt 12 ['a', 'b', 'c'] = true ∧ featureFree ['a', 'b', 'c'] = true)
+    ∧ (agreesAt 12 ['t', 'i', 't', 'l', 'e', ':', 'a', 'b', 'c'] = true ∧ featureFree ['t', 'i', 't', 'l', 'e', ':', 'a', 'b', 'c'] = true)
+    ∧ (agreesAt 12 ['"', 'a', ' ', 'b', '"', '~', '2'] = true ∧ featureFree ['"', 'a', ' ', 'b', '"', '~', '2'] = true)
+    ∧ (agreesAt 12 ['\'', 'a', ' ', 'b', '\'', '*'] = true ∧ featureFree ['\'', 'a', ' ', 'b', '\'', '*'] = true)
+    ∧ (agreesAt 12 ['f', ':', '[', 'a', ' ', 'T', 'O', ' ', 'b', '}'] = true ∧ featureFree ['f', ':', '[', 'a', ' ', 'T', 'O', ' ', 'b', '}'] = true)
+    ∧ (agreesAt 12 ['f', ':', '{', '*', ' ', 'T', 'O', ' ', 'b', ']'] = true ∧ featureFree ['f', ':', '{', '*', ' ', 'T', 'O', ' ', 'b', ']'] = true)
+    ∧ (agreesAt 12 ['f', ':', ' ', 'I', 'N', ' ', '[', 'a', ' ', '"', 'b', ' ', 'c', '"', ' ', '-', '2', ']'] = true ∧ featureFree ['f', ':', ' ', 'I', 'N', ' ', '[', 'a', ' ', '"', 'b', ' ', 'c', '"', ' ', '-', '2', ']'] = true)
+    ∧ (agreesAt 12 ['f', ':', '*'] = true ∧ featureFree ['f', ':', '*'] = true)
+    ∧ (agreesAt 12 ['*'] = true ∧ featureFree ['*'] = true)
+    ∧ (agreesAt 12 ['a', '^', '2', '.', '5'] = true ∧ featureFree ['a', '^', '2', '.', '5'] = true)
+    ∧ (agreesAt 12 ['a', ' ', 'A', 'N', 'D', ' ', 'b', ' ', 'O', 'R', ' ', 'c'] = true ∧ featureFree ['a', ' ', 'A', 'N', 'D', ' ', 'b', ' ', 'O', 'R', ' ', 'c'] = true)
+    ∧ (agreesAt 12 ['+', 'a', ' ', '-', 'b', ' ', 'c'] = true ∧ featureFree ['+', 'a', ' ', '-', 'b', ' ', 'c'] = true)
+    ∧ (agreesAt 12 ['(', ' ', 'a', ' ', 'O', 'R', ' ', ' ', 'b', ' ', ')'] = true ∧ featureFree ['(', ' ', 'a', ' ', 'O', 'R', ' ', ' ', 'b', ' ', ')'] = true)
+    ∧ (agreesAt 12 ['(', '(', 'a', ')', ')'] = true ∧ featureFree ['(', '(', 'a', ')', ')'] = true)
+    ∧ (agreesAt 12 ['N', 'O', 'T', ' ', 'a'] = true ∧ featureFree ['N', 'O', 'T', ' ', 'a'] = true)
+    ∧ (agreesAt 12 ['f', ':', '(', 'a', ' ', 'b', ')'] = true ∧ featureFree ['f', ':', '(', 'a', ' ', 'b', ')'] = true) := by
+  refine ⟨⟨rfl, rfl⟩, ⟨rfl, rfl⟩, ⟨rfl, rfl⟩, ⟨rfl, rfl⟩, ⟨rfl, rfl⟩, ⟨rfl, rfl⟩, ⟨rfl, rfl⟩, ⟨rfl, rfl⟩, ⟨rfl, rfl⟩, ⟨rfl, rfl⟩, ⟨rfl, rfl⟩, ⟨rfl, rfl⟩, ⟨rfl, rfl⟩, ⟨rfl, rfl⟩, ⟨rfl, rfl⟩, ⟨rfl, rfl⟩⟩
+
+/-- one witness per catalogued strict/lenient divergence family: the strict grammar accepts the text,
+    the lenient grammar returns another tree or an error, and `featureFree` excludes the text -/
+theorem C16_lenient_divergence_witnesses :
+    -- C16:lenient-range-space-before-closing-bracket
+    (divergesAt 8 ['[', 'a', ' ', 'T', 'O', ' ', 'b', ' ', ']'] = true ∧ featureFree ['[', 'a', ' ', 'T', 'O', ' ', 'b', ' ', ']'] = false)
+    ∧
+    -- C16:lenient-set-space-after-opening-bracket
+    (divergesAt 8 ['I', 'N', ' ', '[', ' ', '\'', 'a', '\'', ']'] = true ∧ featureFree ['I', 'N', ' ', '[', ' ', '\'', 'a', '\'', ']'] = false)
+    ∧
+    -- C16:lenient-regex-commit-differs-from-strict
+    (divergesAt 8 ['c', ':', '/', 'a', '/', 'b'] = true ∧ featureFree ['c', ':', '/', 'a', '/', 'b'] = false)
+    ∧
+    -- C16:lenient-range-commit-differs-from-strict
+    (divergesAt 8 ['>'] = true ∧ featureFree ['>'] = false)
+    ∧
+    -- C16:lenient-not-requires-plain-space
+    (divergesAt 8 ['N', 'O', 'T', '\t', 'a'] = true ∧ featureFree ['N', 'O', 'T', '\t', 'a'] = false)
+    ∧
+    -- C16:lenient-not-keyword-vs-field-name
+    (divergesAt 8 ['x', ' ', 'N', 'O', 'T', ' ', ':', 'b'] = true ∧ featureFree ['x', ' ', 'N', 'O', 'T', ' ', ':', 'b'] = false)
+    ∧
+    -- C16:lenient-range-bound-escape-differs
+    (divergesAt 8 ['<', ' ', 's', '\\', ' ', 'a'] = true ∧ featureFree ['<', ' ', 's', '\\', ' ', 'a'] = false)
+    ∧
+    -- C16:lenient-negative-number-with-suffix
+    (divergesAt 8 ['n', ':', '-', '1', '~', '0'] = true ∧ featureFree ['n', ':', '-', '1', '~', '0'] = false)
+    ∧
+    -- C16:lenient-touching-clauses-differ-from-strict
+    (divergesAt 8 ['a', ' ', 'b', '(', 'c', ')'] = true ∧ featureFree ['a', ' ', 'b', '(', 'c', ')'] = false)
+  := by
+  refine ⟨⟨rfl, rfl⟩, ⟨rfl, rfl⟩, ⟨rfl, rfl⟩, ⟨rfl, rfl⟩, ⟨rfl, rfl⟩, ⟨rfl, rfl⟩, ⟨rfl, rfl⟩, ⟨rfl, rfl⟩, ⟨rfl, rfl⟩⟩
+
 
 end Chars
 
